@@ -25,7 +25,7 @@ def _log(ctx, x):
   return NP.log(x) if ctx.symbolic else np.log(x)
 
 
-def _mk(ctx, nq, d, weights):
+def _mk(ctx, nq, d, weights, degen=None):
   M = ctx.sym_matrix('M', d)
   P = ctx.sym_matrix('P', d)            # prior^-1: any symmetric matrix
   vab = ctx.real('vab', (nq, d))
@@ -41,12 +41,18 @@ def _mk(ctx, nq, d, weights):
     w = np.ones(nq) / nq
   det = M[0, 0] if d == 1 else M[0, 0] * M[1, 1] - M[0, 1] * M[1, 0]
   ctx.lemma_pos(det)
-  for k in range(nq):          # non-degenerate difference vectors (distances > 0)
-    ctx.assume(ctx.or_(*[ctx.ne(vab[k, c], 0) for c in range(d)]))
-    ctx.assume(ctx.or_(*[ctx.ne(vcd[k, c], 0) for c in range(d)]))
+  for k in range(nq):
+    # quadruplet 0 of a degenerate variant repeats a point (c == d or a == b): its difference vector is exactly zero
+    if k == 0 and degen in ('cd', 'ab'):
+      (vcd if degen == 'cd' else vab)[0, :] = np.float64(0.0)
+    # the other difference vectors are non-degenerate (distances > 0)
     # lemma (solver-proved once): quadratic forms of a positive definite matrix on non-zero vectors are > 0
-    ctx.lemma_pos(_quad(M, vab[k], d))
-    ctx.lemma_pos(_quad(M, vcd[k], d))
+    if not (k == 0 and degen == 'ab'):
+      ctx.assume(ctx.or_(*[ctx.ne(vab[k, c], 0) for c in range(d)]))
+      ctx.lemma_pos(_quad(M, vab[k], d))
+    if not (k == 0 and degen == 'cd'):
+      ctx.assume(ctx.or_(*[ctx.ne(vcd[k, c], 0) for c in range(d)]))
+      ctx.lemma_pos(_quad(M, vcd[k], d))
   return M, P, vab, vcd, w
 
 
@@ -61,11 +67,11 @@ def _inv(M, d):
   return [[M[1, 1] / det, -M[0, 1] / det], [-M[1, 0] / det, M[0, 0] / det]]
 
 
-def loss_grad_case(nq, d, weights):
+def loss_grad_case(nq, d, weights, degen=None):
   """_total_loss is the documented objective and _gradient is its derivative, at every M > 0"""
   def fn(ctx):
     from metric_learn import LSML
-    M, P, vab, vcd, w = _mk(ctx, nq, d, weights)
+    M, P, vab, vcd, w = _mk(ctx, nq, d, weights, degen)
     est = LSML()
     est.w_ = w
     loss = est._total_loss(M.copy(), vab.copy(), vcd.copy(), P.copy())
@@ -76,6 +82,15 @@ def loss_grad_case(nq, d, weights):
     G = [[P[i, j] - _inv(M, d)[i][j] for j in range(d)] for i in range(d)]
     for k in range(nq):
       dab, dcd = _quad(M, vab[k], d), _quad(M, vcd[k], d)
+      if k == 0 and degen == 'ab':
+        continue                  # d(a, a) = 0 is never larger than d(c, d): no contribution
+      if k == 0 and degen == 'cd':
+        # c == d: the residual is (sqrt(dab) - 0)^2 = dab, always violated (dab > 0), derivative vab vab^T
+        ref = ref + w[k] * dab
+        for i in range(d):
+          for j in range(d):
+            G[i][j] = G[i][j] + w[k] * vab[k, i] * vab[k, j]
+        continue
       viol = bool(dab > dcd)      # forks: every violation pattern is a path
       if viol:
         sab, scd = _sqrt(ctx, dab), _sqrt(ctx, dcd)
@@ -282,6 +297,10 @@ def cases(tier, seed):
     out.append(case('loss_grad_q%d_d%d_%s' % (nq, d, wk), loss_grad_case(nq, d, wk), FUNCS,
                     '%d quadruplet(s) of arbitrary difference vectors in R^%d, M arbitrary symmetric positive definite, prior inverse arbitrary symmetric, %s weights; every violation pattern'
                     % (nq, d, 'arbitrary positive' if wk == 'sym' else 'default'), tiers=tiers, cost=10 * nq * d, proof_timeout_ms=120000, validate=6))
+  for dg in ('cd', 'ab'):
+    out.append(case('loss_grad_repeated_point_%s_q2_d2' % dg, loss_grad_case(2, 2, 'sym', degen=dg), FUNCS,
+                    '2 quadruplets in R^2, the first one with a repeated point (%s): its difference vector is exactly zero; otherwise as loss_grad_q2_d2'
+                    % ('c == d' if dg == 'cd' else 'a == b'), cost=20, proof_timeout_ms=120000, validate=6))
   out.append(case('loop_logic', loop_case(3, 2), FUNCS,
                   'one loop iteration from arbitrary (M, s_best, gradient), 3 arbitrary positive step sizes, loss values arbitrary (uninterpreted): any number of iterations by induction',
                   cost=20, validate=0))
